@@ -15,8 +15,11 @@ Import ListNotations.
 Open Scope string_scope.
 
 (* ---- keyword escaping: Symbol's Display, over the REGENERATED KEYWORDS_SET ------------------------------ *)
-(* for every identifier [A-Za-z0-9_]+ other than the lone underscore, what Display prints is lexically a legal
-   Rust 2024 identifier token: never a strict or reserved keyword, never r# applied to crate/self/super/Self *)
+(* for every name of the shape of a Rust identifier -- [A-Za-z_][A-Za-z0-9_]*, not the lone underscore -- what Display prints is lexically
+   a legal Rust 2024 identifier token: never a strict or reserved keyword, never r# applied to crate/self/super/Self.
+   [plain_ident] is the SPECIFICATION of "identifier" (it has a first-character test; the audit of 2026-10-02 found it missing).  The two
+   decidable classes it excludes are exactly two open findings: the lone `_` (a Thrift identifier: F-14e, C14_underscore_refuted) and a
+   digit head (never a Thrift identifier, but heck's conversion of service `_1` produces one: F-14p, C14_digit_head_refuted). *)
 Theorem C14_no_keyword :
   forall s, plain_ident s = true ->
     ident_token_ok (display s) = true /\ ~ In (display s) rust_keywords.
@@ -28,6 +31,15 @@ Theorem C14_underscore_refuted : display "_" = "_" /\ ident_token_ok (display "_
 Proof. exact underscore_refuted. Qed.
 Print Assumptions C14_underscore_refuted.
 
+(* finding F-14p against the strengthened specification: the helper items of service `_1` are named from "1" *)
+Theorem C14_digit_head_refuted :
+  let camel := fun s => if String.eqb s "_1" then "1" else s in
+  let names := helper_items camel (camel "_1") [] (mkFunc "K" None false) in
+  names = ["1KResultRecv"; "1KResultSend"; "1KArgsSend"; "1KArgsRecv"] /\
+  forallb (fun n => negb (plain_ident n) && negb (ident_token_ok (display n))) names = true.
+Proof. exact digit_head_refuted. Qed.
+Print Assumptions C14_digit_head_refuted.
+
 (* constants go through Display as well (fix F-14n): a const called like a keyword is escaped *)
 Theorem C14_const_keyword_escaped :
   forall (conv : kind -> string -> string),
@@ -38,7 +50,14 @@ Proof. exact const_keyword_escaped. Qed.
 Print Assumptions C14_const_keyword_escaped.
 
 (* ---- collision rule: siblings whose converted names coincide keep their original spelling ---------------- *)
-(* for ANY case conversion that is idempotent on the names of the scope, siblings of one kind with pairwise
+(* SCOPE (audit of 2026-10-02): this theorem covers a scope whose siblings are all of ONE kind and carry NO pilota.name annotation, and
+   [conv] is an arbitrary function (never tied to heck; its only hypothesis is idempotence on the scope).  Real module scopes mix
+   kinds (struct / enum / service / typedef / const live in one Rust module, in two namespaces: types and values) and tagged siblings; for
+   those nothing is proved.  What covers them is the SAMPLED comparison of pv/props/c14.py: for every naming scope of every generated
+   and directed document (module scopes with all kinds and tags, fields, variants, methods, arguments) the model `Names.emitted`, fed
+   with heck's actual conversions obtained from the harness (`conv` lines), is compared with the identifiers of the emitted structs,
+   a predicted duplicate is attributed to F-14c / F-14r, and rustc (E0428 / E0124) is the oracle for everything else.
+   For ANY case conversion that is idempotent on the names of the scope, siblings of one kind with pairwise
    distinct original names get pairwise distinct emitted names -- provided the escape stage is injective on the
    names it is given ([escape_ok]: no k / k_ pair for a path-segment keyword k, no '#').  Both side conditions are
    decidable and are evaluated by the check on every naming scope of every generated document. *)
@@ -73,7 +92,10 @@ Proof. exact names_escape_refuted. Qed.
 Print Assumptions C14_names_escape_refuted.
 
 (* ---- relative paths between modules -------------------------------------------------------------------------- *)
-(* the text emitted for a reference from module p1 to the item with path p2, read by rustc inside module p1
+(* NOTE (audit): `exists r, related_path p1 p2 = Some r` is trivial -- the repaired DefaultPathResolver::related_path has no unwrap / index left
+   (the `p2.last().unwrap()` branch went with F-14d; `i -= 1` is guarded by `i > 0`), so the model is total like the code; the content of the
+   theorem is the second conjunct.  The panics of WorkspacePathResolver (`p1[0]`, `p2[0]` on empty paths) are the None of [wrelated_path].
+   The text emitted for a reference from module p1 to the item with path p2, read by rustc inside module p1
    (emitted names), names exactly that item -- for EVERY pair of paths since the repair of finding F-14d (before it: only
    when p2 was not a prefix of p1; otherwise the text was a run of `super`s, or the raw last segment when p1 = p2) *)
 Theorem C14_related_path :
@@ -184,6 +206,9 @@ Qed.
 Print Assumptions C14_derive_tables.
 
 (* ---- pilota.name: the site that defines an item and the sites that refer to it compute the same name -------------------------------
+   NOTE (audit): once the regenerated read counts say that both sites start from the effective name, the statement below is an identity BY
+   CONSTRUCTION of the model (both sides unfold to the same term); its content is the tie -- the counts are regenerated, and a site that
+   reads the raw name makes [consumer_uses_tag] false and the proof fail.  It is not listed as proved content in the manifest.
    The helper items of a Thrift function ({Service}{Function}ResultRecv / ResultSend / Exception / ArgsSend / ArgsRecv) are created by
    lower_service and one of them, ...Exception, is looked up by the path lower_method builds; {Function} starts from the function's
    EFFECTIVE name (the pilota.name annotation if present).  For every case conversion, service, list of sibling functions and
